@@ -17,7 +17,7 @@ META = dict(
     functions=["qucumber/nn_states/neural_state.py: fit, compute_batch_gradients, _shuffle_data, positive_phase_gradients",
                "qucumber/utils/gradients_utils.py: vector_to_grads", "qucumber/rbm/*.py: gibbs_steps, effective_energy_gradient",
                "qucumber/nn_states/{positive,complex}_wavefunction.py, density_matrix.py: fit / compute_batch_gradients overrides", "torch.optim.SGD (modelled: p <- p - lr * grad)"],
-    bounds=dict(quick="positive (2,2) N=3 with (pos,neg) batch sizes (2,2),(2,1),(3,2),(1,3); complex (2,1) N=3 (2,2),(2,1); mixed (1,1,1) N=3 (2,1); k in {0,1,2}; counting: start, epochs in 0..3, 1-3 batches, stop at any event",
+    bounds=dict(quick="positive (2,2) N=3 with (pos,neg) batch sizes (2,2),(2,1),(3,2),(1,3); complex (2,1) N=3 (2,2),(2,1); mixed (1,1,1) N=3 (2,1); k in {0,1,2}; two consecutive runs sharing one optimizer_args dict with two symbolic learning rates (positive (2,2), complex (2,1)); counting: start, epochs in 0..3, 1-3 batches, stop at any event",
                 thorough="k up to 3, complex (2,2), mixed (2,1,1), more batch-size combinations"),
     outside=["optimizers other than SGD (momentum, weight decay, Adam: torch's update rules)", "floating point", "N > 4"],
     stubs=["torch.randperm / randint / bernoulli -> scripted", "torch.optim.SGD -> exact real-arithmetic model in the symbolic backend (the real one in the replay backend)", "torch -> vf.symtorch"],
